@@ -34,6 +34,21 @@ def pool():
     return _POOL
 
 
+def same_result(a, b) -> bool:
+    """Dictionary equality that also distinguishes what == does not: the UTC offset / naivety of datetimes, int vs float."""
+    if a is None or b is None:
+        return a is b
+    if not isinstance(a, dict) or not isinstance(b, dict) or a.keys() != b.keys():
+        return False
+    for k in a:
+        x, y = a[k], b[k]
+        if type(x) is not type(y) or x != y:
+            return False
+        if hasattr(x, "utcoffset") and (x.utcoffset() != y.utcoffset() or x.replace(tzinfo=None) != y.replace(tzinfo=None)):
+            return False
+    return True
+
+
 def individual(payload: bytes):
     """Each of the seven decoders alone: list of ('ok', dict) | ('exc', name) | ('budget', None)."""
     from han import autodecoder
@@ -107,7 +122,7 @@ def judge(hist, key, history_genuine_same=True):
         if not acc:
             viol.append(f"result {res!r:.80} although no individual decoder accepts")
         else:
-            if after not in names or ind[names.index(after)][0] != "ok" or ind[names.index(after)][1] != res:
+            if after not in names or ind[names.index(after)][0] != "ok" or not same_result(ind[names.index(after)][1], res):
                 viol.append(f"result is not the result of the decoder named afterwards ({after}); accepting: {[names[i] for i in acc]}")
             if state is not None and names.index(state) in acc and after != state:
                 viol.append(f"previously successful decoder {state} accepts the payload but {after} was used")
@@ -121,14 +136,65 @@ def judge(hist, key, history_genuine_same=True):
             esc.append(f"decode_message({wname}) escaped: {k2}")
             continue
         exp = res if payload else None
-        if r2 != exp or (payload and b.previous_success_decoder != after):
+        if not same_result(r2, exp) or (payload and b.previous_success_decoder != after):
             viol.append(f"decode_message({wname}) = {r2!r:.60} / state {b.previous_success_decoder}, decode_message_payload = {res!r:.60} / state {after}")
     return viol, esc, after, res is not None
 
 
 def replay(case: dict) -> list[str]:
+    if case.get("state") == "collision":
+        pp = _work_collisions(0)
+        return [v["what"] for v in pp.v]
     v, esc, _, _ = judge(tuple(case["history"]) if "history" in case and case.get("state") == "history" else case.get("state"), case["event"], True)
     return v
+
+
+def colliding_frames():
+    """Pairs of different valid HDLC frames of equal length AND equal FCS (found by searching the 16 low bits of the APDU
+    invoke id): anything that identifies a frame by (length, check sequence) confuses them.  [(A, B), ...] as HdlcFrame."""
+    from mc.ref import cosem as RC
+
+    pairs = []
+    bodies = [
+        (RC.kaifa_body_positional(RC.KAIFA_LAYOUTS[1], {"active_power_import": 1476}), RC.kaifa_body_positional(RC.KAIFA_LAYOUTS[1], {"active_power_import": 1540}),
+         b"\x09\x0c" + RC.dt12(2024, 3, 10, 18, 31, 58), b"\x09\x0c" + RC.dt12(2024, 3, 10, 18, 32, 0)),
+        (RC.aidon_body([("1.0.1.7.0.255", ("num", "u32", 280, 0, 27))]), RC.aidon_body([("1.0.1.7.0.255", ("num", "u32", 7000, 0, 27))]), b"\x00", b"\x00"),
+    ]
+    for b1, b2, d1, d2 in bodies:
+        pa = RC.llc(b1, d1)
+        fa = RH.build_frame(0xA, 0, b"\x01", b"\x21", 0x13, pa)
+        target = fa[-2:]
+        for inv in range(65536):
+            pb = RC.llc(b2, d2, b"\x40\x00" + bytes((inv >> 8, inv & 0xFF)))
+            fb = RH.build_frame(0xA, 0, b"\x01", b"\x21", 0x13, pb)
+            if fb[-2:] == target and len(fb) == len(fa):
+                frames = []
+                for f in (fa, fb):
+                    got, _ = X.feed((True, True), [b"\x7e" + RH.stuff(f) + b"\x7e"])
+                    assert len(got) == 1 and got[0].is_valid
+                    frames.append(got[0])
+                pairs.append(tuple(frames))
+                break
+    return pairs
+
+
+def _work_collisions(task) -> core.Part:
+    from han import autodecoder
+
+    p = core.Part()
+    for fa, fb in colliding_frames():
+        for order in ((fa, fb), (fb, fa), (fa, fb, fa), (fa, fa, fb)):
+            a = autodecoder.AutoDecoder()
+            for i, fr in enumerate(order):
+                k, got, _ = budget.run_budget(lambda: a.decode_message(fr), budget.budget_for(len(fr.payload)) * 8)
+                want = autodecoder.AutoDecoder().decode_message_payload(fr.payload)
+                p.add("transitions")
+                if k != "ok" or not same_result(got, want):
+                    p.viol("collision", f"collision:{fr.as_bytes.hex()[:40]}:{i}:{len(order)}", f"frames of equal length and equal FCS {fa.as_bytes[-2:].hex()} decoded in a row: step {i} decode_message "
+                           f"gives {got!r:.90}, decode_message_payload of the same payload gives {want!r:.90}", {"state": "collision", "event": "", "history": [f.as_bytes.hex() for f in order]}, size=i + 1)
+                    break
+    p.add("collision_pairs", len(colliding_frames()))
+    return p
 
 
 def _work_seq(task) -> core.Part:
@@ -240,6 +306,7 @@ def main(run: core.Run) -> int:
     sub = list(dict.fromkeys(sub))
     run.log(f"fixpoint: {len(seen)} states, {edges} transitions; histories <= 3 over {len(sub)} events")
     run.merge(par.pmap(_work_seq, [(f, sub, table) for f in sub], seed=run.seed))
+    run.merge(par.pmap(_work_collisions, [0], seed=run.seed))
     tot = run.total
     nontriv = tot.c.get("decoded", 0)
     tot.sample({"state": None, "event": "ref.kaifa.list1_1320W.body", "payload": "02010600000528", "expected": "decoded by Kaifa_notification_body"})
